@@ -150,7 +150,7 @@ def check_kernel(prop, tier, replay):
     log("MCCache: %d distinct states, %d transitions, %.1fs" % (dist, gen, time.time() - t0))
     # 2+3. the same universe on the real cache, judged by TLC
     total, nstates, nontrivial, samples = run_records(u, "kernel", res, want)
-    if nstates != dist:
+    if nstates and nstates != dist:
         raise Inconclusive("state count mismatch: TLC explored %d states, the Go enumerator %d" % (dist, nstates))
     extra = 0
     if tier == "thorough":
